@@ -48,10 +48,9 @@ def get_intensities(big_edges,
 
             intensity_to_use = np.mean(list(map(np.median,
                                                 intensities_per_edge)))
-        try:
-            key_to_use = big_edges.index(big_edge)
-        except ValueError:
-            key_to_use = "ext_"+str(be_id)
+        # key by position in the given list: list.index() compares big edges by value, so a repeated or an
+        # equal-valued big edge would collapse onto the first one
+        key_to_use = be_id
 
         intensities[key_to_use] = intensity_to_use
         # big_edge.gt = intensities[key_to_use]
